@@ -1,8 +1,8 @@
 import Dcg.Proofs.Names
 /-
 CaseOK for CPython's case maps as generated (Dcg/Gen/Unicode lowerMap*/upperMap*): the
-character-wise `lowerS`/`upperS` of Dcg/Py/Chars send an identifier that does not start with `_`
-to such an identifier. Proved from two kernel-evaluated conditions on the tables:
+character-wise `lowerS`/`upperS` of Dcg/Py/Chars send an identifier to an identifier, and one that
+does not start with `_` to one that does not start with `_`. Proved from two kernel-evaluated conditions on the tables:
 every run keeps XID_Start and XID_Continue *interval-wise* (the image interval lies inside one
 range of the class table, or the source interval misses the table altogether), every explicit
 entry is checked character by character.
@@ -215,7 +215,7 @@ theorem charOK_caseMap {runs : List Run} {special : List (Nat × List Nat)}
 /-- a character-wise string map whose images are all fine is a legal case map -/
 theorem caseFnOK_flatMap {f : Char → List Char} (hf : ∀ c, CharOK c (f c)) :
     CaseFnOK (fun s => s.flatMap f) := by
-  intro s hs hh
+  intro s hs
   cases s with
   | nil => simp [isIdentifier] at hs
   | cons c cs =>
@@ -228,7 +228,7 @@ theorem caseFnOK_flatMap {f : Char → List Char} (hf : ∀ c, CharOK c (f c)) :
       have hec : isIdCont e = true := List.all_eq_true.mp hs.2 e he
       exact List.all_eq_true.mp ((hf e).1 hec) d hde
     simp only [List.flatMap_cons, himg, List.cons_append]
-    refine ⟨by simp [isIdentifier, hstart, htail, hrest], ?_⟩
+    refine ⟨by simp [isIdentifier, hstart, htail, hrest], fun hh => ?_⟩
     simp only [List.head?_cons, ne_eq, Option.some.injEq]
     intro hu
     apply hh
